@@ -184,13 +184,20 @@ def synthetic_graph(rng):
             v = py.assert_(a, cond, "length check")
             desc.append("assert")
         elif r < 0.8:
-            cp = py.call(py.getattr(np_, "copy"), [a])
+            q = rng.random()
+            cp = py.call(py.getattr(np_, "copy"), [a]) if q < 0.6 else (py.getitem(a, [rng.randint(0, 3) for _ in range(4)]) if q < 0.8 else py.operator("*", a, 2))
             v = py.call_inplace(cp, py.getattr(np_, "put"), [cp, rng.randint(0, 3), rng.randint(1, 9)])
-            desc.append("inplace")
+            desc.append("inplace" if q < 0.6 else "inplace_on_temporary")
         elif r < 0.87:
-            cp = py.call(py.getattr(np_, "copy"), [a])
+            q = rng.random()
+            if q < 0.5:
+                cp = py.call(py.getattr(np_, "copy"), [a])
+            elif q < 0.75:
+                cp = py.getitem(a, [rng.randint(0, 3) for _ in range(4)])           # a new array made by an inlinable expression
+            else:
+                cp = py.operator("+", a, rng.randint(1, 3))
             v = py.additem(cp, rng.randint(0, 3), rng.randint(1, 9)) if rng.random() < 0.5 else py.setitem(cp, slice(0, 2), 7)
-            desc.append("updateitem")
+            desc.append("updateitem" if q < 0.5 else "updateitem_on_temporary")
         elif r < 0.9:
             # a nested function definition that closes over a value of the enclosing function which later statements use too
             row = py.Value(None)
